@@ -34,17 +34,18 @@ Fixpoint dshift (cnt i index : nat) (d : list Z) (ob : nat) : list Z * nat :=
            else dshift c (S i) index d ob
   end.
 
-(* for (i=0;i<encounter_N;i++){ if (after) map[i-1] = map[i]-1; if (map[i]==index){ encounter_index=i; after=1; } } *)
-Fixpoint emap_loop (cnt i : nat) (index : Z) (m : list Z) (after : bool) (eidx : Z) (ob : nat)
-  : list Z * Z * nat :=
+(* j=0; for (i=0;i<encounter_N;i++){ if (map[i]==index){ encounter_index=i; continue; }
+                                      map[j] = (map[i]>index) ? map[i]-1 : map[i]; j++; }
+   (since 98c9aa5: the removed particle may or may not be part of the encounter; entries above index shift) *)
+Definition renum1 (index v : Z) : Z := if (index <? v)%Z then (v - 1)%Z else v.
+Fixpoint emap_loop (cnt i j : nat) (index : Z) (m : list Z) (eidx : Z) (ob : nat) : list Z * Z * nat :=
   match cnt with
   | O => (m, eidx, ob)
   | S c =>
-      let '(m1, ob1) := if after then (upd m (i - 1) (nth i m 0 - 1)%Z, ob + chk (length m) i + chk (length m) (i - 1))
-                        else (m, ob) in
-      let ob2 := ob1 + chk (length m1) i in
-      if (nth i m1 0 =? index)%Z then emap_loop c (S i) index m1 true (Z.of_nat i) ob2
-      else emap_loop c (S i) index m1 after eidx ob2
+      let v := nth i m 0%Z in
+      let ob1 := ob + chk (length m) i in
+      if (v =? index)%Z then emap_loop c (S i) j index m (Z.of_nat i) ob1
+      else emap_loop c (S i) (S j) index (upd m j (renum1 index v)) eidx (ob1 + chk (length m) j)
   end.
 
 (* TRACE: drop row and column [index] of the N x N matrix, in place:
@@ -84,8 +85,9 @@ Definition hremove (s : state) (h : hyb) (index : Z) (keep : bool) : state * hyb
             let '(d, ob) := if (0 <? nd) && (i <? nd)
                             then dshift (Nat.min (sN s - 1) (nd - 1)) 0 i (dcrit h) (hoob h) else (dcrit h, hoob h) in
             if hmode h =? 1 then
-              let '(m, eidx, ob') := emap_loop (eN h) 0 index (emap h) false (-1)%Z ob in
-              mkH (kind h) (hmode h) d m (eN h - 1) (if (eidx <? eNact h)%Z then (eNact h - 1)%Z else eNact h)
+              let '(m, eidx, ob') := emap_loop (eN h) 0 0 index (emap h) (-1)%Z ob in
+              mkH (kind h) (hmode h) d m (if (0 <=? eidx)%Z then eN h - 1 else eN h)
+                  (if (0 <=? eidx)%Z && (eidx <? eNact h)%Z then (eNact h - 1)%Z else eNact h)
                   (ks h) (rc_rcrit h) (rc_coord h) ob'
             else mkH (kind h) (hmode h) d (emap h) (eN h) (eNact h) (ks h) (rc_rcrit h) (rc_coord h) ob
         | ITrace =>
@@ -93,7 +95,7 @@ Definition hremove (s : state) (h : hyb) (index : Z) (keep : bool) : state * hyb
               (* only in the Kepler step (mode 1) is encounter_map a list of indices; in REB_TRACE_MODE_FULL (3)
                  the map, encounter_N and encounter_N_active are left alone *)
               let is_list := hmode h =? 1 in
-              let '(m, eidx, ob') := if is_list then emap_loop (eN h) 0 index (emap h) false (-1)%Z (hoob h)
+              let '(m, eidx, ob') := if is_list then emap_loop (eN h) 0 0 index (emap h) (-1)%Z (hoob h)
                                      else (emap h, (-1)%Z, hoob h) in
               let '(k, ob'') := ks_rows (sN s - 1) 0 (sN s - 1) (sN s) i (ks h) ob' in
               mkH (kind h) (hmode h) (dcrit h) m
